@@ -13,7 +13,7 @@ GRACE = [0, 100, 200, 300, 500]            # ms; the float loop `waited += 0.1` 
 WARM = [0, 0, 100, 300]
 SIGS = [15, 2, 3, 10]
 HOOK_NAMES = ["before_start", "after_start", "before_spawn", "after_spawn", "before_stop", "after_stop",
-              "before_signal", "after_signal"]
+              "before_signal", "after_signal", "before_reap", "after_reap"]
 
 
 def float_polls(gt_s):
@@ -422,6 +422,26 @@ def recipe_signal_veto(rng):
     return sc, pre
 
 
+def recipe_reap_veto(rng):
+    """before_reap / after_reap hooks that say no or raise, and workers that die: the hooks gate nothing — a dead worker is
+    popped, waited for and announced whatever they answer"""
+    hooks = {"before_reap": {"out": rng.choice([["false"], ["false", "true"], ["raise"], ["raise", "false"]]),
+                             "ignore": rng.random() < 0.3}}
+    if rng.random() < 0.6:
+        hooks["after_reap"] = {"out": rng.choice([["false"], ["raise"], ["true", "raise"]]), "ignore": rng.random() < 0.3}
+    sc = {"arb": {"warmup_ms": 0}, "behav": [{"term": ["obey", 0], "kill_lat": 0, "spawn_ms": 1}],
+          "watchers": [_w("a", np=rng.choice([1, 2, 3]), respawn=rng.random() < 0.6, hooks=hooks)]}
+    if rng.random() < 0.3:
+        sc["watchers"].append(_w("B", np=1, priority=rng.choice([-1, 1])))
+    st = rng.choice([sim.wstat_exit(0), sim.wstat_exit(3), sim.wstat_sig(9)])
+    pre = [["start"]] + [["wake"]] * 6
+    pre.append(lambda v: ["die", (v.pids.get("a") or [100])[0], st])
+    pre += [["check"]] + [["wake"]] * 4 + [["check"], ["wake"]]
+    if rng.random() < 0.5:
+        pre += [_req("stop", "qs", name="a", waiting=rng.random() < 0.5)] + [["wake"]] * 4
+    return sc, pre
+
+
 def recipe_singleton_set(rng):
     """a singleton watcher and requests that try to give it more than one process"""
     sc = {"arb": {"warmup_ms": 0}, "behav": [{"term": ["obey", 0], "kill_lat": 0, "spawn_ms": 1}],
@@ -519,7 +539,7 @@ def recipe_sequential_reload_death(rng):
 
 
 RECIPES = {"sequential_reload_death": recipe_sequential_reload_death, "stopped_worker": recipe_stopped_worker, "children_vanish": recipe_children_vanish, "pattern_subset": recipe_pattern_subset, "signal_veto": recipe_signal_veto, "singleton_set": recipe_singleton_set, "on_demand_stop": recipe_on_demand_stop, "untracked_zombies": recipe_untracked_zombies,
-           "topup_start": recipe_topup_start}
+           "topup_start": recipe_topup_start, "reap_veto": recipe_reap_veto}
 
 
 def gen_scenario(rng, nops=None, profile=None):
